@@ -1,6 +1,6 @@
 """Engine `toy` - C06 (execution vs. reference accumulator machine), C19 (encoding + assembler),
 C20 (whole steps == half-cycle steps, sequencing errors)."""
-from ..common import guarded, rng_for, h64, with_alarm, AlarmTimeout
+from ..common import guarded, rng_for, h64, with_alarm, AlarmTimeout, decoy_toy_touch
 from ..refmodels.toy import RefToy, MNEMONICS, ADDRESS_TYPE, decode_word
 
 RULE = {
@@ -129,6 +129,7 @@ def run_exec_case(case, res, sim=None):
             drive = ("step", "halves", "single")[(steps + len(case["text"])) % 3]
         if drive == "halves":
             sim.first_cycle_step()
+            decoy_toy_touch()
             sim.second_cycle_step()
             ret = not sim.is_done()
             res.count("instructions_driven_by_half_cycles")
@@ -139,6 +140,8 @@ def run_exec_case(case, res, sim=None):
             res.count("instructions_driven_by_half_cycles")
         else:
             ret = sim.step()
+        if not case.get("single_word"):
+            decoy_toy_touch()  # another live machine executes half a cycle in between
         ref.step()
         steps += 1
         res.count("steps_compared")
@@ -554,6 +557,7 @@ def run_halves_case(case, res):
         if not done:
             legal = {"step": due == 1, "first": due == 1, "second": due == 2, "single": True, "run": due == 1}[call]
         f = {"step": A.step, "first": A.first_cycle_step, "second": A.second_cycle_step, "single": A.single_step, "run": A.run}[call]
+        decoy_toy_touch()  # another live machine executes half a cycle between any two calls on the twins
         try:
             if call == "run":
                 with_alarm(15, f)
